@@ -603,13 +603,14 @@ func runScript(a *App, mon *Mon, seed int64, v int) {
 		s.r.Msg(types.NewMsgStartRequestContext(unhex(mid), cons), "consumer of a module context, after the restart")
 		s.r.Msg(types.NewMsgUpdateRequestContext(unhex(mid), nil, coins(5), 0, 0, 0, cons), "consumer of a module context, after the restart")
 		s.r.Msg(types.NewMsgKillRequestContext(unhex(mid), cons), "consumer of a module context, after the restart")
+		id2 := s.call("svc", []sdk.AccAddress{o2, o1}, s.A.Consumers[1], 1000, 2, false, false, 0, 0) // the self-providing owners alone
+		s.block()
+		answer(id2, o2, o1)
 		s.modCtl("start", mid, cons)
 		id := s.call("svc", []sdk.AccAddress{o2, o1, s.A.SignProv[3], p1, p3}, s.A.Consumers[1], 1000, 2, false, true, 3, 2)
-		id2 := s.call("svc", []sdk.AccAddress{o2, o1}, s.A.Consumers[1], 1000, 2, false, false, 0, 0) // the self-providing owners alone
 		s.block()
 		answer(mid, p2)
 		answer(id, o2, o1, s.A.SignProv[3], p1, p3)
-		answer(id2, o2, o1)
 		blocks(4)
 		answer(mid, p1, p2, p3)
 		s.r.Msg(types.NewMsgWithdrawEarnedFees(o2, nil), "whole-owner withdrawal after a restart")
